@@ -49,7 +49,8 @@ def gen_R(rng):
 def gen_x(rng):
     """free numeric attribute: the literals of the expression generator (so that == / != hit), floats, negatives, large"""
     return rng.choice([{"q": [0, 1]}, {"q": [1, 1]}, {"q": [9, 4]}, {"q": [-1, 2]}, {"q": [-9, 4]}, {"q": [1000, 1]},
-                       {"q": [2, 1, True]}, {"q": [3, 2]}, {"q": [255, 1]}, {"q": [-1, 1]}])
+                       {"q": [2, 1, True]}, {"q": [3, 2]}, {"q": [255, 1]}, {"q": [-1, 1]},
+                       {"q": [4000000001, 1]}, {"q": [4000000002, 1]}])
 
 
 class Answers:
